@@ -100,7 +100,10 @@ def same(g, w):
     return g == w
 
 
-def check_one(led, model, cyl, combined, reuse):
+FORCED_ZERO = [(0, 2), (1, 2), (2, 0), (2, 1), (0, 5), (5, 0), (1, 5), (5, 1), (3, 2), (2, 3), (4, 2), (2, 4), (3, 5), (4, 5), (5, 3), (5, 4)]
+
+
+def check_one(led, model, cyl, combined, reuse, force=False):
     db = model_db()
     it, calls, lam_calls = harness()
     is_iso = model.startswith('iso_')
@@ -120,6 +123,8 @@ def check_one(led, model, cyl, combined, reuse):
         n = 8 if 'fsdt' in model else 6
         Freuse = np.array([[real('Fr%d%d' % (i, j)) for j in range(n)] for i in range(n)], dtype=object)
         attrs['F_reuse'] = Freuse
+    if force:
+        attrs['force_orthotropic_laminate'] = True
     it.facts += [to_z3(real('r2')) > 0, to_z3(real('L')) > 0, to_z3(shims.PI) > 3, to_z3(integer('m1')) >= 1, to_z3(integer('m2')) >= 1]
     if not cyl:
         it.facts += [to_z3(real('alphadeg')) > 0, to_z3(real('alphadeg')) < 90]
@@ -131,7 +136,7 @@ def check_one(led, model, cyl, combined, reuse):
         it.call(it.getattr(cc, '_calc_linear_matrices'), [], dict(combined_load_case=combined, silent=True))
         return cc, list(calls), list(lam_calls)
     res = it.explore(run)
-    tag = '%s,%s,combined=%s%s' % (model, 'cylinder' if cyl else 'cone', combined, ',F_reuse' if reuse else '')
+    tag = '%s,%s,combined=%s%s%s' % (model, 'cylinder' if cyl else 'cone', combined, ',F_reuse' if reuse else '', ',force_orthotropic_laminate' if force else '')
     for n_, (path, out) in enumerate(res):
         name = '%s[%s]%s' % (LM, tag, '' if len(res) == 1 else '#%d' % n_)
         if out[0] == 'raise':
@@ -167,6 +172,11 @@ def check_one(led, model, cyl, combined, reuse):
                             Fexp[i, j] = real('E%d%d' % (i, j)) * attrs['K']
                 else:
                     Fexp = np.array([[real('ABD%d%d' % (i, j)) for j in range(6)] for i in range(6)], dtype=object)
+        if force and Fexp is not None:
+            # force_orthotropic_laminate: the extension-shear, bending-twist and their coupling entries (16, 26 of A, B, D; 45 of E) are zero
+            Fexp = np.array(Fexp, dtype=object)
+            for (i, j) in FORCED_ZERO + ([(6, 7), (7, 6)] if Fexp.shape[0] == 8 else []):
+                Fexp[i, j] = P.const(0)
         arad = shims.sym_deg2rad(alphadeg) if not cyl else P.const(0)
         cosa = shims.sym_cos(arad) if not cyl else P.const(1)
         Fc_exp = a['Nxxtop'][0] * (2 * shims.PI * attrs['r2'] * cosa)
@@ -243,6 +253,8 @@ def check(led):
                 jobs.append((model, cyl, combined, False))
         if not model.startswith('iso_'):
             jobs.append((model, False, None, True))
+            jobs.append((model, False, None, False, True))
+            jobs.append((model, True, None, True, True))
     only = os.environ.get('C16_PY_MODELS')
     if only:
         jobs = [j for j in jobs if j[0] in only.split(',')]
